@@ -3,6 +3,7 @@ import Driver.Common
 import ZepidVerif.Model.SuperLearner
 import ZepidVerif.Model.Stepwise
 import ZepidVerif.Gen.Stack
+import ZepidVerif.Model.StepwiseGen
 namespace ZVD
 open ZV ZV.SL
 
@@ -112,14 +113,20 @@ def opStepwise (a : Args) : Except String String := do
     match entries.find? (fun e => e.1 == c) with
     | some e => e.2
     | none => none
-  match Stepwise.search dir aic p with
-  | none => pure "err startNaN"
+  -- executed: the search driven by the column bookkeeping regenerated from StepwiseSL.fit (Model/StepwiseGen.lean);
+  -- `model` = the hand-written `Stepwise.search` (the subject of `stepwise_sound`) returns the same
+  let same := match Stepwise.genSearch dir aic p, Stepwise.search dir aic p with
+    | none, none => true
+    | some R, some M => R.cols == M.cols && R.aic.toBits == M.aic.toBits && R.visited == M.visited && R.done == M.done
+    | _, _ => false
+  match Stepwise.genSearch dir aic p with
+  | none => pure s!"err startNaN model={showBool same}"
   | some R =>
     let miss := R.visited.filter (fun c => (entries.find? (fun e => e.1 == c)).isNone)
     if !miss.isEmpty then pure ("err oracleMiss:" ++ showCols (miss.headD []))
     else
       pure (s!"ok cols={showCols R.cols} aic={showFloat R.aic} visited={";".intercalate (R.visited.map showCols)} " ++
-        s!"done={showBool R.done}")
+        s!"done={showBool R.done} model={showBool same}")
 
 /-- `kfold n= k=` → the test folds of `KFold(k, shuffle=False)` on `n` rows -/
 def opKFold (a : Args) : Except String String := do
